@@ -30,10 +30,16 @@ def render(mn, syn, tmpl, sfx, v, case, rng):
     m = mn
     s = {None: "", 1: ".b", 2: ".w", 3: ".l"}[sfx]
     lit = ("0x%x" % v) if v >= 0 else ("-0x%x" % -v)
+    if v >= 0 and rng.random() < 0.2:
+        # leading zeros do not widen the operand: the width comes from the value
+        if rng.random() < 0.8:
+            lit = rng.choice(["0x%04x", "0x%06x", "0x00%x"]) % v
+        else:
+            lit = "0b" + "0" * rng.randrange(1, 9) + "{:b}".format(v)
     I, O = inner, outer
     if case == "upper":
         m, s, I, O = m.upper(), s.upper(), I.upper(), O.upper()
-        lit = lit.replace("0x", "0x").upper().replace("0X", "0x")
+        lit = lit.upper().replace("0X", "0x").replace("0B", "0b")
     elif case == "mixed":
         m = "".join(c.upper() if rng.random() < 0.5 else c for c in m)
         s = s.upper() if rng.random() < 0.5 else s
